@@ -81,6 +81,12 @@ pub broadcast proof fn axiom_yields_slice(a: &[u8]) ensures #[trigger] yields::<
 pub assume_specification<'a, T, A, I> [<std::vec::Vec<T, A> as std::iter::Extend<&'a T>>::extend] (v: &mut std::vec::Vec<T, A>, i: I)
     where A: std::alloc::Allocator, I: std::iter::IntoIterator<Item = &'a T>, T: std::marker::Copy + 'a,
     ensures final(v)@ == old(v)@ + yields::<T, I>(i);
+pub uninterp spec fn yields_val<T, I>(i: I) -> Seq<T>;
+pub broadcast proof fn axiom_yields_val_array16(a: [u8; 16]) ensures #[trigger] yields_val::<u8, [u8; 16]>(a) == a@ { admit(); }
+pub broadcast proof fn axiom_yields_val_vec(a: Vec<u8>) ensures #[trigger] yields_val::<u8, Vec<u8>>(a) == a@ { admit(); }
+pub assume_specification<T, A, I> [<std::vec::Vec<T, A> as std::iter::Extend<T>>::extend] (v: &mut std::vec::Vec<T, A>, i: I)
+    where A: std::alloc::Allocator, I: std::iter::IntoIterator<Item = T>,
+    ensures final(v)@ == old(v)@ + yields_val::<T, I>(i);
 pub assume_specification<T> [<[T]>::contains] (s: &[T], x: &T) -> (r: bool)
     where T: std::cmp::PartialEq,
     ensures r == s@.contains(*x);
